@@ -14,6 +14,10 @@ Oracles after every action:
   (e) an action aimed at an option with an enabled `set`, or with assignable == (2,), leaves its value unchanged
   (f) if the input dialog's validator (check_valid) accepts v, the option's value afterwards denotes v
       (numerically for int / hex / float, exactly for string)
+
+Trees: see trees(); the `multidef_*` trees give choice members, ordinary options and a menuconfig option several definitions
+(extra promptless definition before / after, inside / outside the choice or menu; a prompt in two menus), so that code which
+maps a symbol to "its" row through sym.nodes is exercised with nodes[0] / nodes[-1] not being the displayed row.
 """
 
 from __future__ import annotations
@@ -33,7 +37,12 @@ RULE = (
     "screen + jump-to(node); load file[+confirm o|c] incl. a missing file; s; q+y|n|c) executed by the real MenuConfigApp glue, "
     "fresh session per history, depth 4 (quick) / 5 (thorough); additionally from every expanded state one step typing "
     "EVERY value of the malformed lists (int 13, hex 8, float 9, string 3) into every numeric/string row. "
-    "distinct_nontrivial counts distinct (pair, canonical UI state) reached by a non-empty history."
+    "distinct_nontrivial counts distinct (pair, canonical UI state) reached by a non-empty history. "
+    "Tree alphabet includes six `multidef_*` trees in which symbols have SEVERAL definitions (sym.nodes longer than one): choice "
+    "members with an extra promptless definition before / after the choice outside its menu, beside the choice, and inside the "
+    "choice; ordinary options with extra promptless definitions before / after, inside / outside their menu; a menuconfig option "
+    "with extra definitions around its menu; an option with a prompt in two menus -- each with an initial sdkconfig that selects / "
+    "sets the multiply defined symbol and a load file that selects another one; every history of the depth runs over them."
 )
 ASSUMPTIONS = [
     "trees whose menu `visible if` / `depends on` mentions an option inside the menu are rejected by the parser (dependency "
@@ -183,6 +192,70 @@ def trees() -> List[Dict[str, Any]]:
         Cfg("V", "bool", prompt="v", prompt_cond=Not(S("W"))),
     ]
     T("warning_options", kids, {"int": ["5"]}, {"absent": None, "hand": "CONFIG_W=y\nCONFIG_WI=4\n"}, {"off.cfg": "# CONFIG_W is not set\n"})
+
+    # ---- symbols with SEVERAL definitions (sym.nodes has more than one entry, only one of them is a displayed row) ----
+    def extra(name, typ="bool", **kw):
+        """an additional promptless definition of `name` (carries a help text unless it carries another property)"""
+        if not kw:
+            kw = {"help": "shared"}
+        return Cfg(name, typ, prompt=None, **kw)
+
+    def members():
+        return [Cfg("A", "bool", prompt="a"), Cfg("B", "bool", prompt="b"), Cfg("C", "bool", prompt="c")]
+
+    # choice members with an extra definition OUTSIDE the menu that holds the choice: B before, C after
+    kids = [
+        extra("B"),
+        Menu(title="M", children=[Choice(name="CH", prompt="ch", children=members()), Cfg("O", "bool", prompt="o")]),
+        extra("C"),
+    ]
+    T("multidef_member_outside_menu", kids, {}, {"absent": None, "hand": "CONFIG_B=y\n"}, {"c.cfg": "CONFIG_C=y\n"}, weight=8)
+    # ... with the extra definition in the same menu as the choice, beside it: B before, C after
+    kids = [extra("B"), Choice(name=None, prompt="ch", children=members()), extra("C"), Cfg("O", "bool", prompt="o")]
+    T("multidef_member_beside_choice", kids, {}, {"absent": None, "hand": "CONFIG_C=y\n"}, {"b.cfg": "CONFIG_B=y\n"}, weight=8)
+    # ... with the extra (promptless) definition INSIDE the choice: B before its prompted definition, C after
+    kids = [
+        Choice(name="CH", prompt="ch", children=[extra("B"), *members(), extra("C")]),
+        Cfg("O", "bool", prompt="o"),
+    ]
+    T("multidef_member_inside_choice", kids, {}, {"absent": None, "hand": "CONFIG_B=y\n"}, {"c.cfg": "CONFIG_C=y\n"}, weight=8)
+    # ordinary options: O extra before/outside the menu, P (int) extra before/inside and after/outside, Q extra after/inside
+    kids = [
+        extra("O"),
+        Menu(
+            title="M",
+            children=[
+                extra("P", "int", defaults=[(L("2"), None)]),
+                Cfg("O", "bool", prompt="o"),
+                Cfg("P", "int", prompt="p"),
+                Cfg("Q", "bool", prompt="q", depends=[S("O")]),
+                extra("Q"),
+            ],
+        ),
+        extra("P", "int"),
+    ]
+    T("multidef_options", kids, {"int": ["4"]}, {"absent": None, "hand": "CONFIG_O=y\nCONFIG_P=3\n"}, {"off.cfg": "# CONFIG_O is not set\n"}, weight=8)
+    # a menuconfig option (its node is the current menu while inside) with extra definitions before and after, outside its menu
+    kids = [
+        extra("MC"),
+        Menu(
+            title="M",
+            children=[
+                Cfg("MC", "bool", prompt="mc", menuconfig=True),
+                Cfg("K", "bool", prompt="k", depends=[S("MC")]),
+                Cfg("J", "int", prompt="j", depends=[S("MC")], defaults=[(L("1"), None)]),
+            ],
+        ),
+        extra("MC", defaults=[(L("y"), None)]),
+    ]
+    T("multidef_menuconfig", kids, {"int": ["4"]}, {"absent": None, "hand": "# CONFIG_MC is not set\n"}, {"off.cfg": "# CONFIG_MC is not set\n"}, weight=8)
+    # an option with a prompt in two places (two displayed rows for one symbol, in different menus)
+    kids = [
+        Cfg("O", "bool", prompt="o"),
+        Menu(title="M", children=[Cfg("O", "bool", prompt="o2"), Cfg("P", "int", prompt="p", defaults=[(L("1"), None)]), Cfg("Q", "bool", prompt="q", depends=[S("O")])]),
+        Cfg("P", "int", prompt="p2"),
+    ]
+    T("multidef_two_prompts", kids, {"int": ["4"]}, {"absent": None, "hand": "CONFIG_O=y\nCONFIG_P=3\n"}, {"off.cfg": "# CONFIG_O is not set\n"}, weight=8)
     return out
 
 
